@@ -22,6 +22,7 @@ in /repo and is now a positive theorem (C13_slice_of_time).
 -/
 import DialsModel.Model.DecodeSpec
 import DialsModel.Lemmas.Decode
+import DialsModel.Lemmas.Duration
 
 namespace Dials.C13
 open Dials Dials.Decode
@@ -204,6 +205,46 @@ theorem C13_slice_of_time (f : Fmt) (wrap : Bool) :
   · cases f <;> cases wrap <;> decide
   · rw [C13_key_path f wrap sliceTimeTy hr]
     cases f <;> cases wrap <;> simp [kview, sliceTimeTy, kvTy, kvFields] <;> decide
+
+/-! ### durations: the per-leaf hypothesis of `wt` is a theorem for the modelled time package -/
+
+/-- the external duration functions instantiated with the models of time.ParseDuration / Duration.String
+    (Model/Duration.lean, tied to the real functions by the C15 correspondence) -/
+def durExt (E : Ext) : Ext :=
+  { E with
+    parseDur := fun s => match Parse.parseDuration s.toList with
+      | .ok d => some d
+      | _ => none
+    durText := fun n => String.ofList (Parse.fmtDuration n) }
+
+/-- For EVERY int64 duration the text written for it (Duration.String) is read back as that duration: with the modelled
+    time package the `wt` condition on duration leaves - "a duration whose text the parser reads back" - holds for all
+    durations, so the agreement theorems above apply to every duration value written as a string (and, for JSON and
+    Cue, as integer nanoseconds). -/
+theorem C13_every_duration_text_reads_back (E : Ext) (n : Int) (h1 : -(9223372036854775808 : Int) ≤ n)
+    (h2 : n < 9223372036854775808) : (durExt E).parseDur ((durExt E).durText n) = some n := by
+  simp only [durExt, String.toList_ofList]
+  have hrt : Parse.parseDuration (Parse.fmtDuration n) = .ok n := by
+    have h63 : Parse.two63 = 9223372036854775808 := rfl
+    unfold Parse.fmtDuration
+    by_cases hneg : n < 0
+    · have := Parse.parseDuration_fmtNat n.natAbs (by omega) true (by simp)
+      simp only [if_true] at this
+      simp only [hneg, if_true, this]
+      congr 1; omega
+    · have := Parse.parseDuration_fmtNat n.natAbs (by omega) false (by intro _; omega)
+      simp only [Bool.false_eq_true, if_false] at this
+      simp only [hneg, if_false, this]
+      congr 1; omega
+  rw [hrt]
+
+/-- ... hence a duration leaf is well-typed data in every format, whatever its value (formats that substitute the
+    parsing type - JSON, Cue - need it inside int64, which every time.Duration is). -/
+theorem C13_duration_leaf_wt (E : Ext) (fmt : Fmt) (n : Int) (h1 : -(9223372036854775808 : Int) ≤ n)
+    (h2 : n < 9223372036854775808) :
+    wt (durExt E) fmt (if fmt.subs then .pdur else .dur) (.dur n) = true := by
+  have h := C13_every_duration_text_reads_back E n h1 h2
+  cases hs : fmt.subs <;> simp [wt, hs, h, inInt64] <;> omega
 
 /-! ### non-vacuity: the hypotheses of the agreement theorems are satisfiable in all four formats at once -/
 
